@@ -59,6 +59,9 @@ class _Reviewed(dict):
 
 
 _RAW = {
+    "R4h|fixtures::FixtureDatabase::evict_cache_if_needed|pick in hash order":
+        "`file_cache.iter().take(n)` picks the n entries to evict when the text cache is over its capacity: any n entries do; "
+        "an evicted text is re-read from disk on demand, no answer depends on which ones went",
     "R1d|fixtures::cli::<impl fixtures::FixtureDatabase>::has_visible_fixtures+fixtures::cli::<impl fixtures::FixtureDatabase>::has_visible_fixtures::{closure#1}":
         "walk over the parent->children map built in print_fixtures_tree from Path::parent(): a child path is strictly "
         "longer than its key, so the map is acyclic; a map lookup is deliberately not accepted as destructuring",
@@ -128,16 +131,121 @@ _RAW = {
 REVIEWED = _Reviewed(_RAW)
 
 
+# ---- reviewed arguments that rest on a guard -------------------------------------------------------------------------------
+# The key of a reviewed site names the function and the expression, not the test the argument starts from ("reached only when
+# ...", "returned early otherwise").  Removing that test leaves the key unchanged (seeded change C11-q did exactly that), so an
+# entry whose argument starts from a dominating test names it here, and `settle` accepts the entry only while a test of that
+# kind still dominates the site:  ("call", regex) = the true edge of a call whose callee matches;  ("len-cmp",) = an edge of an
+# integer comparison one operand of which comes from a `len()`;  ("char-eq",) = the true edge of a comparison with a char literal.
+RESTS_ON = {
+    "R7d|providers::code_action::<impl providers::Backend>::handle_code_action|`func_line_content`":
+        ("a dominating `contains(..)` test", ("call", r"str>?::contains$")),
+    "R7a|fixtures::scanner::<impl fixtures::FixtureDatabase>::extract_package_name_from_dist_info|RangeFrom|`_`[start=sum `_` + constant 1 without a starts_with guard]":
+        ("the `c == '-'` test before the slice", ("char-eq",)),
+    "R7f|fixtures::resolver::<impl fixtures::FixtureDatabase>::get_completion_context_from_text|`lines`[`i`]":
+        ("the early return on `target_line > lines.len()`", ("len-cmp",)),
+    "R7f|fixtures::resolver::<impl fixtures::FixtureDatabase>::get_completion_context_from_text|`lines`[`def_line_idx`]":
+        ("the early return on `target_line > lines.len()`", ("len-cmp",)),
+    "R7f|fixtures::resolver::<impl fixtures::FixtureDatabase>::get_completion_context_from_text|`lines`[`def_line_idx`..=`cursor_idx`]":
+        ("the early return on `target_line > lines.len()`", ("len-cmp",)),
+    "R7f|fixtures::string_utils::extract_word_at_position|`char_indices`[(`start_idx` - 1)]":
+        ("the early return on `character >= char_indices.len()`", ("len-cmp",)),
+    "R7f|fixtures::string_utils::extract_word_at_position|`char_indices`[`start_idx`]":
+        ("the early return on `character >= char_indices.len()`", ("len-cmp",)),
+    "R7f|fixtures::string_utils::format_docstring|`lines`[(`end` - 1)]":
+        ("the `end > start` loop condition", ("len-cmp",)),
+    "R7f|fixtures::string_utils::format_docstring|`lines`[`start`..`end`]":
+        ("the early return on `start >= end`", ("len-cmp",)),
+}
+RESTS_ON = {norm_key(k): v for k, v in RESTS_ON.items()}
+
+
+def _guard_dominates(f, bb, spec):
+    from .core import op_local, place_local
+    import re
+    dom = f.dominators().get(bb, set())
+
+    def edges_of(sw_bb):
+        t = f.blocks[sw_bb]["t"]
+        return [x for _v, x in t[2]] + ([t[3]] if len(t) > 3 and t[3] is not None else [])
+
+    def tested_locals(sw_bb):
+        """locals the switch operand is computed from (through copies / Not)"""
+        out, st = set(), [op_local(f.blocks[sw_bb]["t"][1])]
+        while st and len(out) < 12:
+            x = st.pop()
+            if x is None or x in out:
+                continue
+            out.add(x)
+            for d in f.whole_defs(x):
+                if d[0] == "assign" and d[3][0] in ("use", "un"):
+                    st.append(op_local(d[3][1] if d[3][0] == "use" else d[3][2]))
+        return out
+
+    def from_len(l, depth=0, seen=None):
+        seen = seen if seen is not None else set()
+        if l is None or l in seen or depth > 8:
+            return False
+        seen.add(l)
+        for d in f.defs().get(l, []):
+            if d[0] == "call":
+                if re.search(r"::len$", d[2].get("res") or d[2].get("fn") or ""):
+                    return True
+                if not d[2].get("res_local") and any(from_len(op_local(a), depth + 1, seen) for a in d[2]["args"]):
+                    return True
+            elif d[0] == "assign":
+                rv = d[3]
+                if rv[0] == "len" or (rv[0] == "un" and str(rv[1]) == "PtrMetadata"):
+                    return True
+                ops = [rv[1]] if rv[0] == "use" else [rv[2], rv[3]] if rv[0] == "bin" else [rv[-1]] if rv[0] in ("cast", "un") else []
+                if any(from_len(op_local(o), depth + 1, seen) for o in ops if isinstance(o, list)):
+                    return True
+        return False
+
+    for sw_bb, blk in enumerate(f.blocks):
+        t = blk["t"]
+        if t[0] != "switch" or sw_bb not in dom:
+            continue
+        # one of its edges dominates the site (the site lies on one side of the test)
+        sides = [e for e in edges_of(sw_bb) if e in dom]
+        if not sides:
+            continue
+        for l in tested_locals(sw_bb):
+            for d in f.whole_defs(l):
+                if spec[0] == "call" and d[0] == "call" and re.search(spec[1], d[2].get("res") or d[2].get("fn") or ""):
+                    return True
+                if d[0] != "assign" or d[3][0] != "bin":
+                    continue
+                rv = d[3]
+                if spec[0] == "len-cmp" and rv[1] in ("Lt", "Le", "Gt", "Ge") and \
+                        (from_len(op_local(rv[2])) or from_len(op_local(rv[3]))):
+                    return True
+                if spec[0] == "char-eq" and rv[1] in ("Eq", "Ne"):
+                    for o in (rv[2], rv[3]):
+                        if isinstance(o, list) and o[0] == "c" and isinstance(o[1], dict) and o[1].get("t") == "char":
+                            return True
+    return False
+
+
 def settle(r, pending):
     """decide the unproven sites of a prover-style rule: exact / renamed reviewed entry, else an entry whose site moved here
-    (its own key is vacated), else a violation.  pending: [(key, message)]"""
-    present = {norm_key(k) for k, _m in pending}
+    (its own key is vacated), else a violation.  pending: [(key, message)] or [(key, message, (fn, block))]"""
+    present = {norm_key(p[0]) for p in pending}
     used = set()
-    for key, msg in pending:
+    for item in pending:
+        key, msg = item[0], item[1]
+        site = item[2] if len(item) > 2 else None
+        need = RESTS_ON.get(REVIEWED._resolve(key) or norm_key(key)) if key in REVIEWED else None
+        if need and site is not None and not _guard_dominates(site[0], site[1], need[1]):
+            r.violate(key + "|without " + need[0], msg + " -- the reviewed argument for this site starts from %s, which no longer "
+                                                         "dominates it" % need[0])
+            continue
         if key in REVIEWED:
             r.review(key, REVIEWED[key])
             continue
         e = REVIEWED.moved(key, present | used)
+        if e is not None and e in RESTS_ON and site is not None and not _guard_dominates(site[0], site[1], RESTS_ON[e][1]):
+            e = None
         if e is not None:
             used.add(e)
             r.review(key, dict.__getitem__(REVIEWED, e) + " [site moved here from %s]" % e.split("|")[1].split("::")[-1])
